@@ -260,7 +260,39 @@ func (s *Sim) oracleC05(op Op, evs []SIEvent) {
 				want, _ := s.userUsage("", qp, only)
 				got := ResFromDAO(t.Queues[qp].ResourceUsage)
 				if !got.Eq(want) {
-					s.violate("C05", "group-usage", ar, "group %s is tracked with %s on %s, the live allocations of its applications there sum to %s", gn, got, qp, want)
+					detail := ar
+					// applications the user trackers no longer link to any group but that still hold allocations
+					// (an application whose last real allocation went while placeholders remain is unlinked early)
+					unlinked := map[string]bool{}
+					for app := range s.cache.liveByApp {
+						linked := false
+						for _, ut := range users {
+							if _, ok := ut.Groups[app]; ok {
+								linked = true
+							}
+						}
+						if !linked {
+							unlinked[app] = true
+						}
+					}
+					if s.groupLeak == nil {
+						s.groupLeak = map[string]Res{}
+					}
+					lk := gn + "|" + qp
+					if len(unlinked) > 0 {
+						if extra, _ := s.userUsage("", qp, unlinked); got.Eq(want.Add(extra)) {
+							detail = "allocations-of-unlinked-application"
+							// what was unlinked never comes back: remember the amount
+							s.groupLeak[lk] = extra.Add(s.groupLeak[lk+"|done"])
+						}
+					}
+					if detail != "allocations-of-unlinked-application" {
+						if leaked, ok := s.groupLeak[lk]; ok && got.Eq(want.Add(leaked)) {
+							detail = "allocations-of-unlinked-application"
+							s.groupLeak[lk+"|done"] = leaked
+						}
+					}
+					s.violate("C05", "group-usage", detail, "group %s is tracked with %s on %s, the live allocations of its applications there sum to %s", gn, got, qp, want)
 				}
 			}
 		}
